@@ -1,6 +1,6 @@
 import Qv.Driver.Json
 import Qv.Model.PcboLogic
-namespace Qv.Drv
+namespace Qv.Drv.C06
 open Lean Qv
 
 partial def sexprOfJsonC06 (j : Json) : Except String SExpr := do
@@ -50,4 +50,4 @@ def handleLogic (j : Json) : Except String Json := do
 
 def handlersC06 : List (String × (Json → Except String Json)) := [("logic", handleLogic)]
 
-end Qv.Drv
+end Qv.Drv.C06
